@@ -925,6 +925,38 @@ def np_asarray(ex, st, args, kwargs, node):
     return args[0] if v.kind == "array" else st.alloc(v.with_(idx=None, kind="array"))
 
 
+@builtin("numpy.insert")
+def np_insert(ex, st, args, kwargs, node):
+    v, pos, x = st.get(args[0]), st.get(args[1]), st.get(args[2])
+    if not isinstance(v, Vec) or not (isinstance(pos, int) and pos == 0) or isinstance(x, (Vec, ListV, tuple)) or kwargs:
+        raise Unsupported("np.insert(arr, 0, scalar) only")
+    used(ex, "np.insert(arr, 0, x) = x followed by the elements of arr")
+    xe = coerce_elem(v, x)
+    return st.alloc(Vec(to_z3(v.n) + 1, lambda k, v=v, xe=xe: merge_val(to_z3(k) == 0, xe, v.at(to_z3(k) - 1)), elt=v.elt, kind="array"))
+
+
+@builtin("numpy.append")
+def np_append(ex, st, args, kwargs, node):
+    v, x = st.get(args[0]), st.get(args[1])
+    if not isinstance(v, Vec) or isinstance(x, (Vec, ListV, tuple)) or kwargs:
+        raise Unsupported("np.append(arr, scalar) only")
+    used(ex, "np.append(arr, x) = the elements of arr followed by x")
+    xe = coerce_elem(v, x)
+    n = v.n
+    return st.alloc(Vec(to_z3(n) + 1, lambda k, v=v, xe=xe, n=n: merge_val(to_z3(k) == to_z3(n), xe, v.at(k)), elt=v.elt, kind="array"))
+
+
+@builtin("numpy.extract")
+def np_extract(ex, st, args, kwargs, node):
+    c, v = st.get(args[0]), st.get(args[1])
+    if not isinstance(c, Vec) or not isinstance(v, Vec) or kwargs:
+        raise Unsupported("np.extract(mask array, array) only")
+    used(ex, "np.extract(mask, arr) = the elements of arr at the True positions of mask, in order")
+    ex.oblig("len_eq", "L%s" % getattr(node, "lineno", "?"), st, to_z3(c.n) == to_z3(v.n))
+    m, sel = compress(ex, st, c.n, c.at, "ext")
+    return st.alloc(Vec(m, lambda j, sel=sel, v=v: v.at(sel(to_z3(j))), elt=v.elt, kind="array"))
+
+
 @builtin("numpy.array")
 def np_array(ex, st, args, kwargs, node):
     v = st.get(args[0])
